@@ -304,8 +304,11 @@ def escapeMultiText : List Char → List Char
      else if c = '\t' then ['\\', 't']
      else [c]) ++ escapeMultiText rest
 
-/-- number of trailing `' '` -/
-def trailingSpaces (cs : List Char) : Nat := (cs.reverse.takeWhile (· = ' ')).length
+/-- number of trailing `' '` (`line.len() - line.trim_end_matches(' ').len()`) -/
+def trailingSpaces : List Char → Nat
+  | [] => 0
+  | c :: t =>
+    if t.all (· = ' ') then (if c = ' ' then t.length + 1 else t.length) else trailingSpaces t
 
 /-- `protect_trailing_spaces`: the trailing run of `' '` becomes `\s` each. -/
 def protectTrailingSpaces (line : List Char) : List Char :=
